@@ -369,6 +369,36 @@ mutant('C15', 'wrong-type-accepted', 'frappy/modules.py',
 mutant('C15', 'shutdown-twice', 'frappy/secnode.py',
        "        for name in self._getSortedModules():\n            self.modules[name].shutdownModule()\n\n    def _attached_names",
        "        for name in self._getSortedModules():\n            self.modules[name].shutdownModule()\n        for mod in list(self.modules.values())[:1]:\n            mod.shutdownModule()\n\n    def _attached_names")
+# ---------------------------------------------------------------- C10
+mutant('C10', 'configured-value-written-twice', 'frappy/modulebase.py',
+       "            value = self.writeDict.pop(pname, Done)", "            value = self.writeDict.get(pname, Done)")
+mutant('C10', 'configured-value-not-registered', 'frappy/modulebase.py',
+       "            if hasattr(self, 'write_' + pname):\n                self.writeDict[pname] = pobj.value\n            if pobj.default is None:",
+       "            if pobj.default is None:")
+mutant('C10', 'unknown-names-ignored', 'frappy/modulebase.py',
+       "        if cfgdict:\n            self.errors.append(", "        if cfgdict and False:\n            self.errors.append(")
+mutant('C10', 'bad-values-swallowed', 'frappy/modulebase.py',
+       "            except BadValueError as e:\n                self.errors.append(f'{name}.{propname}: {str(e)}')",
+       "            except BadValueError as e:\n                pass")
+mutant('C10', 'unknown-param-property-ignored', 'frappy/modulebase.py',
+       "            except KeyError:\n                self.errors.append(f\"'{name}' has no property '{propname}'\")",
+       "            except KeyError:\n                pass")
+mutant('C10', 'only-first-failing-module-reported', 'frappy/secnode.py',
+       "            except ConfigError as e:\n                self.errors.append(f'error creating module {modulename}:')",
+       "            except ConfigError as e:\n                if self.errors:\n                    return None\n                self.errors.append(f'error creating module {modulename}:')")
+mutant('C10', 'start-before-error-check', 'frappy/server.py',
+       "        if not self._testonly and not errors:", "        if not self._testonly:")
+mutant('C10', 'needscfg-not-enforced', 'frappy/modulebase.py',
+       "            if pobj.needscfg:\n                self.errors.append(", "            if pobj.needscfg and False:\n                self.errors.append(")
+mutant('C10', 'merged-modules-dropped', 'frappy/config.py',
+       "            if name not in self.module_names:\n                self.module_names.add(name)\n                self[name] = mod",
+       "            if name not in self.module_names:\n                self.module_names.add(name)")
+mutant('C10', 'param-min-override-ignored', 'frappy/params.py',
+       "                try:\n                    self.datatype.setProperty(key, value)\n                except KeyError:",
+       "                try:\n                    if key != 'min':\n                        self.datatype.setProperty(key, value)\n                except KeyError:")
+mutant('C10', 'mandatory-not-checked', 'frappy/modulebase.py',
+       "            try:\n                self.checkProperties()\n            except ConfigError as e:\n                self.errors.append(str(e))",
+       "            pass")
 
 
 def run_mutant(prop, name, file, old, new, runs, extra):
